@@ -11,7 +11,7 @@
 (*   - the removal itself up to the reference-count decrement,             *)
 (*   - the decrement up to (if it was the last) the removal of the root,   *)
 (*   - the removal of the root.                                            *)
-(* Line kinds: gate cd env write probe childenv bg fail skip stop ro defer deferfail setupfail bgdup *)
+(* Line kinds: gate cd env write probe childenv bg fail skip stop ro defer deferfail setupfail bgdup envpwd bgwriter *)
 (* nopath condexec bgfail wait bgnamed waitnamed.  Only bg / defer / fail / wait / skip /    *)
 (* stop / gate matter                                                      *)
 (* for the shared state; the others act on the script's private state.     *)
@@ -48,7 +48,7 @@ Seg(s, i, b, d) ==
   IF i > Len(Lines(s)) THEN [ip |-> i, bg |-> 0, d |-> d, v |-> "pass", gate |-> FALSE]     \* end of script: bg interrupted and waited
   ELSE LET l == Lines(s)[i] IN
     CASE l = "gate"  -> [ip |-> i + 1, bg |-> b, d |-> d, v |-> "running", gate |-> TRUE]
-      [] l = "bg"    -> Seg(s, i + 1, b + 1, d)
+      [] l \in {"bg", "bgwriter"} -> Seg(s, i + 1, b + 1, d)
       [] l \in {"defer", "deferfail"} -> Seg(s, i + 1, b, Append(d, Len(d) + 1))
       [] l = "fail"  -> [ip |-> i, bg |-> b, d |-> d, v |-> "fail", gate |-> FALSE]
       \* Setup itself fails (after registering its clean-up): no line runs, the script has failed
